@@ -35,7 +35,7 @@ def run(chk):
         classes[o["class"]] = classes.get(o["class"], 0) + 1
     for c in ("admissible", "bad-satellite", "bad-signal", "dup-satellite", "dup-cell", "too-many-cells", "empty"):
         if classes.get(c, 0) < 10:
-            raise ToolError("vacuity: class %s has %d cases" % (c, classes.get(c, 0)))
+            chk.vacuity("vacuity: class %s has %d cases" % (c, classes.get(c, 0)))
     chk.cov["distinct_nontrivial"] = len(set(ln for ln, o in r["lines"]))
     chk.assumptions += ["MSM header is 73 bits before the 64-bit satellite mask (pinned fact from the standard)",
                         "a cell whose descriptor the library accepts but SigTables does not list (library extension) puts the event out of scope"]
